@@ -106,7 +106,12 @@ fn make_alt(rng: &mut SplitMix, main: &GraphSpec, max_e: u64, max_l: usize) -> O
         for _ in 0..8 {
             let mut v = main.clone();
             v.name = String::new();
-            match rng.below(4) {
+            match rng.below(5) {
+                4 => {
+                    // the very same graph in another space-time dimension D
+                    let nd = 1 + (v.d + rng.range(0, 4) as usize) % 6;
+                    v.d = nd;
+                }
                 0 | 1 => {
                     let mut verts: Vec<u8> = v.edges.iter().flat_map(|e| [e.v.0, e.v.1]).collect();
                     verts.sort_unstable();
@@ -129,7 +134,7 @@ fn make_alt(rng: &mut SplitMix, main: &GraphSpec, max_e: u64, max_l: usize) -> O
                     }
                 }
             }
-            if v.externals == main.externals && v.edges == main.edges {
+            if v.externals == main.externals && v.edges == main.edges && v.d == main.d {
                 continue;
             }
             if let Built::Ok(s) = sampler::build(&v) {
